@@ -56,11 +56,11 @@ theorem uPost_inv (s : State) (r : String) (q : Q) (h : Inv s) : Inv (uPost s r 
   unfold uPost
   simp only []
   -- the optional mount attempt
-  have hm : Inv (if q.mount ≠ "" ∧ q.fromR ≠ "" then mount s q.fromR r q.mount else (s, none)).1 := by
+  have hm : Inv (if q.mount ≠ "" ∧ q.fromR ≠ "" ∧ validRepo q.fromR then mount s q.fromR r q.mount else (s, none)).1 := by
     split
     · exact mount_inv s q.fromR r q.mount h
     · exact h
-  generalize (if q.mount ≠ "" ∧ q.fromR ≠ "" then mount s q.fromR r q.mount else (s, none)) = m at hm
+  generalize (if q.mount ≠ "" ∧ q.fromR ≠ "" ∧ validRepo q.fromR then mount s q.fromR r q.mount else (s, none)) = m at hm
   obtain ⟨s1, handled⟩ := m
   simp only [] at hm ⊢
   cases handled with
@@ -124,7 +124,7 @@ theorem bDel_inv (s : State) (r arg : String) (h : Inv s) : Inv (bDel s r arg).1
       have hr := repo_ok _ r h1
       exact ⟨fun p hp => hr.1 p (List.mem_filter.mp hp).1, hr.2⟩
 
-theorem bGet_inv (s : State) (r arg : String) (head : Bool) (h : Inv s) : Inv (bGet s r arg head).1 := by
+theorem bGet_inv (s : State) (r arg : String) (head : Bool) (rng : String) (h : Inv s) : Inv (bGet s r arg head rng).1 := by
   unfold bGet
   split
   · exact h
@@ -132,12 +132,17 @@ theorem bGet_inv (s : State) (r arg : String) (head : Bool) (h : Inv s) : Inv (b
     simp only []
     split <;> exact h1
 
+theorem serve_full (s : State) (c dcd ct : String) :
+    (serve s c "" false dcd ct).status = 200 ∧ (serve s c "" false dcd ct).dcd = dcd ∧
+    (serve s c "" false dcd ct).body = "=" ++ cname c := by
+  simp [serve, parseRange]
+
 /-- the serving side of C01: a 200 answer to a blob GET carries bytes that hash to the digest in its header -/
 theorem bGet_served (s : State) (r arg : String) (h : Inv s) (d : Dig) (bytes : String)
     (hd : DigArg.parse arg = .ok d)
     (hb : ((s.setRepo (s.repo r)).repo r).blob d = some bytes) :
     (bGet s r arg false).2.status = 200 ∧ (bGet s r arg false).2.dcd = d.str ∧
-    (bGet s r arg false).2.body = "=" ++ bytes ∧ d = H d.alg bytes := by
+    (bGet s r arg false).2.body = "=" ++ cname bytes ∧ d = H d.alg bytes := by
   have h1 := setRepo_inv s _ h (repo_ok s r h)
   have hr := repo_ok _ r h1
   have hcas : d.content = bytes := by
@@ -152,7 +157,9 @@ theorem bGet_served (s : State) (r arg : String) (h : Inv s) (d : Dig) (bytes : 
       have := hr.1 p hp
       rw [hk, hb] at this
       exact this
+  have hs := serve_full (s.setRepo (s.repo r)) bytes d.str "octet"
   unfold bGet
-  simp [hd, hb]
+  simp only [hd, hb]
+  refine ⟨hs.1, hs.2.1, hs.2.2, ?_⟩
   cases d; simp_all [H]
 end Upd
